@@ -532,7 +532,15 @@ pub fn cmd_replay(path: &str) -> i32 {
         }
     };
     let known = load_known();
-    match violations_of(&rp.scenario, &known) {
+    let tries = if matches!(rp.scenario.schedule, Schedule::Free) { 40 } else { 1 };
+    let mut res = violations_of(&rp.scenario, &known);
+    for _ in 1..tries {
+        if matches!(&res, Ok(v) if !v.is_empty()) {
+            break;
+        }
+        res = violations_of(&rp.scenario, &known);
+    }
+    match res {
         Err(e) => {
             eprintln!("svsim replay: harness error: {}", e);
             2
